@@ -2,6 +2,7 @@
 import Reamber.Util.Json
 import Reamber.Model.O2J
 import Reamber.Spec.O2J
+import Reamber.Model.O2JX
 
 open Lean Reamber.J
 
@@ -42,6 +43,30 @@ def levelToJson (l : LevelOut) : Json :=
        ("holds", listToJson noteOutToJson (l.notes.filter (fun o => !isHit o))),
        ("bpms", listToJson (fun (b : BpmOut) => Json.arr #[ratToJson b.pos, ratToJson b.bpm, ratToJson b.time]) l.bpms)]
 
+def xtToJson : XT → Json
+  | .fin q => ratToJson q
+  | .nan => Json.str "nan"
+
+/-- a tempo value of the extended model: a rational as `[num, den]`, else `{"inf": neg}` / `"nan"` -/
+def tempoXToJson : F32 → Json
+  | .fin q => ratToJson q
+  | .inf n => obj [("inf", Json.bool n)]
+  | .nan => Json.str "nan"
+
+def noteOutXToJson (o : NoteOutX) : Json :=
+  match o.note with
+  | .hit s => Json.arr #[ratToJson s.pos, intToJson s.col, natToJson s.vol, natToJson s.pan, xtToJson o.time]
+  | .hold h t => Json.arr #[ratToJson h.pos, ratToJson t.pos, intToJson h.col, natToJson h.vol, natToJson h.pan,
+                            xtToJson o.time, optToJson xtToJson o.len]
+
+def isHitX (o : NoteOutX) : Bool := match o.note with | .hit _ => true | _ => false
+
+/-- same shape as `levelToJson`; times may be `"nan"`, tempo values may be `{"inf": …}` / `"nan"` -/
+def levelXToJson (l : LevelOutX) : Json :=
+  obj [("hits", listToJson noteOutXToJson (l.notes.filter isHitX)),
+       ("holds", listToJson noteOutXToJson (l.notes.filter (fun o => !isHitX o))),
+       ("bpms", listToJson (fun (b : BpmOutX) => Json.arr #[ratToJson b.pos, tempoXToJson b.bpm, xtToJson b.time]) l.bpms)]
+
 def resToJson {α} (f : α → Json) : Except Err α → Json
   | .ok v => okJson (f v)
   | .error e => errJson e.toString
@@ -76,6 +101,9 @@ def handle (op : String) (j : Json) : Except String Json := do
     let m := readFile bs
     .ok (obj [("model", resToJson (fun (f : FileOut) => obj [("header", headerToJson f.header),
                                                              ("levels", listToJson levelToJson f.levels)]) m),
+              ("modelx", resToJson (fun (f : FileOutX) => obj [("header", headerToJson f.header),
+                                                              ("levels", listToJson levelXToJson f.levels)]) (readFileX bs)),
+              ("xrefines", Json.bool (refinesB bs)),
               ("spec", specFile bs)])
   | "c07.f32" =>
     let bs ← getArr natOf? j "b"
